@@ -34,6 +34,11 @@ REWRITES = {
     "internal/util/pid.go": [
         (r"\btime\.Now\(\)", "verifhook.Now()", 1),
     ],
+    # linear and function curves read no clock today; one that is added (a per-tick memo, a rate limit) reads the virtual
+    # clock the streams control (`cv.eval now=`) instead of the wall clock, which hardly moves during a run (seed C07l)
+    "internal/curves/curve.go": [(r"\btime\.Now\(\)", "verifhook.Now()", 0)],
+    "internal/curves/functional.go": [(r"\btime\.Now\(\)", "verifhook.Now()", 0)],
+    "internal/curves/linear.go": [(r"\btime\.Now\(\)", "verifhook.Now()", 0)],
     "internal/controller/controller.go": [
         (r"\btime\.Sleep\(", "verifhook.Sleep(", 1),
         # no time-out exists in the controller today; one that is added is measured on the virtual clock too (seed C16e)
@@ -98,6 +103,10 @@ def rewrite_source(rel):
     m = re.search(r"^package\s+\w+\s*$", src, re.M)
     src = src[:m.end()] + "\n\n" + HOOK_IMPORT + src[m.end():]
     src += KEEPALIVE.get(rel, "")
+    if rel.startswith("internal/curves/"):
+        src += "\nvar _ = verifhook.Now\n"
+        if re.search(r'^\s*"time"\s*$', src, re.M):
+            src += "var _ = time.Now\n"
     return src, broken
 
 
